@@ -43,6 +43,8 @@ type c14Case struct {
 	CutAt       int       `json:"cut_at"`
 	End         string    `json:"end"`
 	CloseAfter  int       `json:"close_after_reads"`
+	CloseAtEnd  bool      `json:"close_after_end_of_body"` // the application closes the body after it has seen EOF / an error (defer Body.Close())
+	CloseFails  bool      `json:"inner_close_fails"`
 	Named       bool      `json:"has_test_name"`
 	Chunks      []int     `json:"chunks"`
 }
@@ -88,6 +90,12 @@ func c14GenBody(tape *simrt.Tape, cs *c14Case, tier string, responseSide bool) [
 		endStream := responseSide && e.Flags&0x82 != 0
 		if endStream {
 			plain := []string{`{"error":{"code":"internal","message":"oops"}}`, "grpc-status: 0\r\ngrpc-message: ok\r\n", "{}", "x", ""}[tape.Choose(5, "eos")]
+			if tape.Bool(1, 8, "eosbig") {
+				// an end-stream message with large metadata / error details (the
+				// decompressed size is far above any small fixed buffer)
+				size := []int{65536, 65537, 70000, 300000}[tape.Choose(4, "eosbigsize")]
+				plain = `{"error":{"code":"internal","message":"` + strings.Repeat("details ", size/8) + `"}}`
+			}
 			e.Plain = plain
 			payload = []byte(plain)
 			if e.Flags&1 != 0 {
@@ -195,9 +203,10 @@ type ioRec struct {
 }
 
 type recReadCloser struct {
-	inner  io.Reader
-	log    []ioRec
-	closed int
+	inner    io.Reader
+	log      []ioRec
+	closed   int
+	closeErr error
 }
 
 func (r *recReadCloser) Read(p []byte) (int, error) {
@@ -208,7 +217,7 @@ func (r *recReadCloser) Read(p []byte) (int, error) {
 
 func (r *recReadCloser) Close() error {
 	r.closed++
-	return nil
+	return r.closeErr
 }
 
 type traceSink struct {
@@ -314,6 +323,10 @@ func c14Run(t *testing.T, tape *simrt.Tape, o simwork.Opts) *simwork.Result {
 		cs.CloseAfter = tape.Choose(6, "closeafter")
 	}
 	cs.End = []string{"eof", "eof-with-data", "error", "stall", "error-with-data"}[endKind]
+	if cs.CloseAfter < 0 && tape.Bool(1, 2, "close-at-end") {
+		cs.CloseAtEnd = true
+		cs.CloseFails = tape.Bool(1, 3, "close-fails")
+	}
 	if cs.CloseAfter >= 0 {
 		cs.End = "close-early"
 	}
@@ -333,6 +346,10 @@ func c14Run(t *testing.T, tape *simrt.Tape, o simwork.Opts) *simwork.Result {
 		}
 		return r
 	}
+	var (
+		appClosedAtEnd bool
+		appCloseErr    error
+	)
 	readSizes := func() int { return []int{1, 2, 3, 5, 7, 64, 512, 32 * 1024}[tape.Choose(8, "bufsize")] }
 	// consume reads r the way an application would and returns the app-side log
 	consume := func(r io.ReadCloser, closeAfter int) []ioRec {
@@ -346,6 +363,9 @@ func c14Run(t *testing.T, tape *simrt.Tape, o simwork.Opts) *simwork.Result {
 			n, err := r.Read(buf)
 			log = append(log, ioRec{N: n, Err: err, Data: string(buf[:n])})
 			if err != nil {
+				if cs.CloseAtEnd {
+					appClosedAtEnd, appCloseErr = true, r.Close()
+				}
 				return log
 			}
 			if i > 200000 {
@@ -374,6 +394,9 @@ func c14Run(t *testing.T, tape *simrt.Tape, o simwork.Opts) *simwork.Result {
 	case "client-response":
 		sr := mkReader(body[:delivered], endKind)
 		inner = &recReadCloser{inner: sr}
+		if cs.CloseFails {
+			inner.closeErr = errors.New("scripted close error")
+		}
 		respHdr := headers.Clone()
 		respTrailer := http.Header{"X-Trailer": {"t1", "t2"}}
 		rt := TracingRoundTripper(roundTripperFunc(func(req *http.Request) (*http.Response, error) {
@@ -394,6 +417,9 @@ func c14Run(t *testing.T, tape *simrt.Tape, o simwork.Opts) *simwork.Result {
 		isRequestSide = true
 		sr := mkReader(body[:delivered], endKind)
 		inner = &recReadCloser{inner: sr}
+		if cs.CloseFails {
+			inner.closeErr = errors.New("scripted close error")
+		}
 		rt := TracingRoundTripper(roundTripperFunc(func(req *http.Request) (*http.Response, error) {
 			appLog = consume(req.Body, cs.CloseAfter)
 			return &http.Response{StatusCode: 200, Status: "200 OK", Proto: "HTTP/1.1", ProtoMajor: 1, ProtoMinor: 1,
@@ -408,6 +434,9 @@ func c14Run(t *testing.T, tape *simrt.Tape, o simwork.Opts) *simwork.Result {
 		isRequestSide = true
 		sr := mkReader(body[:delivered], endKind)
 		inner = &recReadCloser{inner: sr}
+		if cs.CloseFails {
+			inner.closeErr = errors.New("scripted close error")
+		}
 		h := TracingHandler(http.HandlerFunc(func(w http.ResponseWriter, r *http.Request) {
 			appLog = consume(r.Body, cs.CloseAfter)
 			w.Header().Set("Content-Type", "application/proto")
@@ -522,6 +551,15 @@ func c14Run(t *testing.T, tape *simrt.Tape, o simwork.Opts) *simwork.Result {
 		} else if len(inner.log) > 0 {
 			if e := inner.log[len(inner.log)-1].Err; e != nil && !errors.Is(e, io.EOF) {
 				injectedEnd = e
+			}
+		}
+		if appClosedAtEnd {
+			res.Probes["close-after-end-of-body"]++
+			if inner.closed != 1 {
+				viol("c14/reader-transparency", "application closed the body once after it had ended, inner stream saw %d Close calls", inner.closed)
+			}
+			if !errors.Is(appCloseErr, inner.closeErr) || (appCloseErr == nil) != (inner.closeErr == nil) {
+				viol("c14/reader-transparency", "Close after the end of the body returned %v to the application, the inner stream's Close returned %v", appCloseErr, inner.closeErr)
 			}
 		}
 	}
